@@ -1,3 +1,4 @@
+import RedisEmu.Random
 import RedisEmu.Exec
 import RedisEmu.Glob
 import RedisEmu.Dict
@@ -116,31 +117,7 @@ partial def replyMatches (h : Match) (exp got : Value) : Bool :=
 
 /-! ### validators for replies the model does not determine -/
 
-def bulkOf : Value → Option Bytes
-  | .bulk b => some b
-  | .simple b => some b
-  | _ => none
-
-def distinct (l : List Bytes) : Bool :=
-  match l with
-  | [] => true
-  | x :: r => !r.contains x && distinct r
-
 def isAscii (b : Bytes) : Bool := b.all (· < 128)
-
-def validateRandom (members : List Bytes) (count : Option Int) (got : Value) : Bool :=
-  match count with
-  | none => (match got with | .bulk b => members.contains b | _ => false)
-  | some n =>
-    match got with
-    | .array xs =>
-      match xs.mapM bulkOf with
-      | none => false
-      | some bs =>
-        bs.all members.contains &&
-        (if n ≥ 0 then distinct bs && bs.length == min n.toNat members.length
-         else bs.length == n.natAbs)
-    | _ => false
 
 def validate (name : String) (c : Ctx) (s : State) (conn : Nat) (argv : List Bytes) (got : Value) : Bool :=
   let ses := s.session conn
